@@ -176,6 +176,9 @@ class SaDb:
             dbapi.create_function("strpos", 2, lambda a, b: None if a is None or b is None else a.find(b) + 1)
             dbapi.create_function("char_length", 1, lambda a: None if a is None else len(a))
             dbapi.create_function("concat", -1, lambda *a: None if any(x is None for x in a) else "".join(str(x) for x in a))
+            # SQLAlchemy's pysqlite dialect installs a Python `floor` that raises on NULL; SQL FLOOR(NULL) is NULL
+            import math
+            dbapi.create_function("floor", 1, lambda a: None if a is None else math.floor(a))
 
         Base.metadata.create_all(self.engine)
         self.session = Session(self.engine)
